@@ -347,6 +347,48 @@ type Fact struct {
 // reaches b: walk the immediate-dominator chain and keep the steps where the
 // block has exactly one predecessor ending in an If.
 func factsAt(b *ssa.BasicBlock) []Fact {
+	return factsAtDepth(b, 0)
+}
+
+func factsAtDepth(b *ssa.BasicBlock, depth int) []Fact {
+	out := localFactsAt(b)
+	// a helper with exactly one static call site (and closures invoked where they are made) inherits the
+	// conditions under which it is called
+	if fn := b.Parent(); fn != nil && depth < maxHops {
+		if sites := gSites[fn]; len(sites) == 1 && onlyStaticallyCalled(fn) {
+			if _, isGo := sites[0].(*ssa.Go); !isGo && sites[0].Block() != nil && sites[0].Parent() != fn {
+				out = append(out, factsAtDepth(sites[0].Block(), depth+1)...)
+			}
+		}
+	}
+	return out
+}
+
+// gAddrTaken: repository functions used as values (they may be called from anywhere).
+var gAddrTaken map[*ssa.Function]bool
+
+// gInvoked: method names called through an interface anywhere in the repository.
+var gInvoked map[string]bool
+
+// onlyStaticallyCalled: every call of fn is a static call site in the repository — it is not used as a value, is not
+// exported, and (for a method) cannot be reached through an interface.
+func onlyStaticallyCalled(fn *ssa.Function) bool {
+	if gAddrTaken[fn] {
+		return false
+	}
+	if fn.Parent() != nil {
+		return true // closure: only its maker can hand it out, and that would make it address-taken
+	}
+	if token.IsExported(fn.Name()) || fn.Name() == "init" || fn.Name() == "main" {
+		return false
+	}
+	if fn.Signature.Recv() != nil && gInvoked[fn.Name()] {
+		return false
+	}
+	return true
+}
+
+func localFactsAt(b *ssa.BasicBlock) []Fact {
 	var out []Fact
 	for cur := b; cur != nil; cur = cur.Idom() {
 		if len(cur.Preds) != 1 {
@@ -540,17 +582,83 @@ func isTransparent(name string) bool {
 // field/element loads, extracts, transparent calls and local stores to allocs)
 // and reports whether any visited value satisfies pred. stop(v) prunes.
 func derives(v ssa.Value, pred func(ssa.Value) bool) bool {
-	seen := map[ssa.Value]bool{}
+	type key struct {
+		v   ssa.Value
+		ctx ssa.CallInstruction
+	}
+	seen := map[key]bool{}
+	hops := 0 // interprocedural steps taken (helper results, helper parameters, captured variables)
+	var stack []ssa.CallInstruction // calls entered on the way (results of helpers): their parameters map back to these calls only
 	var walk func(v ssa.Value) bool
 	walk = func(v ssa.Value) bool {
-		if v == nil || seen[v] {
+		if v == nil {
 			return false
 		}
-		seen[v] = true
+		var top ssa.CallInstruction
+		if len(stack) > 0 {
+			top = stack[len(stack)-1]
+		}
+		if seen[key{v, top}] {
+			return false
+		}
+		seen[key{v, top}] = true
 		if pred(v) {
 			return true
 		}
 		switch x := v.(type) {
+		case *ssa.Parameter:
+			// a helper's parameter derives from what its (few, static) callers pass
+			fn := x.Parent()
+			sites := gSites[fn]
+			if fn == nil || len(sites) == 0 || (top == nil && (len(sites) > maxHelperSites || hops >= maxHops)) {
+				return false
+			}
+			idx := -1
+			for k, p := range fn.Params {
+				if p == x {
+					idx = k
+				}
+			}
+			if top != nil && top.Common().StaticCallee() == fn {
+				// realizable path: back to the call we came in through
+				stack = stack[:len(stack)-1]
+				defer func() { stack = append(stack, top) }()
+				cc := top.Common()
+				return idx >= 0 && idx < len(cc.Args) && walk(cc.Args[idx])
+			}
+			if top != nil {
+				return false
+			}
+			hops++
+			defer func() { hops-- }()
+			for _, s := range sites {
+				if cc := s.Common(); idx >= 0 && idx < len(cc.Args) && walk(cc.Args[idx]) {
+					return true
+				}
+			}
+			return false
+		case *ssa.FreeVar:
+			fn := x.Parent()
+			if fn == nil || fn.Parent() == nil || hops >= maxHops {
+				return false
+			}
+			idx := -1
+			for k, fv := range fn.FreeVars {
+				if fv == x {
+					idx = k
+				}
+			}
+			hops++
+			defer func() { hops-- }()
+			found := false
+			eachInstr(fn.Parent(), func(i ssa.Instruction) {
+				if mc, ok := i.(*ssa.MakeClosure); ok && mc.Fn == fn && idx >= 0 && idx < len(mc.Bindings) && !found {
+					if walk(mc.Bindings[idx]) {
+						found = true
+					}
+				}
+			})
+			return found
 		case *ssa.Phi:
 			for _, e := range x.Edges {
 				if walk(e) {
@@ -645,11 +753,55 @@ func derives(v ssa.Value, pred func(ssa.Value) bool) bool {
 						return true
 					}
 				}
+				return false
+			}
+			// the result of a repository helper derives from what the helper returns
+			if sc := x.Call.StaticCallee(); sc != nil && isRepoFn(sc) && len(sc.Blocks) > 0 && hops < maxHops {
+				hops++
+				stack = append(stack, ssa.CallInstruction(x))
+				defer func() { hops--; stack = stack[:len(stack)-1] }()
+				found := false
+				eachInstr(sc, func(i ssa.Instruction) {
+					if r, ok := i.(*ssa.Return); ok && !found {
+						for _, res := range r.Results {
+							if walk(res) {
+								found = true
+								return
+							}
+						}
+					}
+				})
+				return found
 			}
 		}
 		return false
 	}
 	return walk(v)
+}
+
+const (
+	maxHops        = 3
+	maxHelperSites = 6
+)
+
+// gSites: static call sites (call, go, defer) of every repository function, rebuilt at each load.
+var gSites map[*ssa.Function][]ssa.CallInstruction
+
+func buildSites(fns []*ssa.Function) {
+	gSites = map[*ssa.Function][]ssa.CallInstruction{}
+	for _, f := range fns {
+		for _, b := range f.Blocks {
+			for _, i := range b.Instrs {
+				ci, ok := i.(ssa.CallInstruction)
+				if !ok {
+					continue
+				}
+				if sc := ci.Common().StaticCallee(); sc != nil && isRepoFn(sc) {
+					gSites[sc] = append(gSites[sc], ci)
+				}
+			}
+		}
+	}
 }
 
 // ---- struct literal stores ---------------------------------------------------------
